@@ -134,7 +134,11 @@ def module_images(m):
     """{name: dict(bytes, relocs{off:(sym,addend)}, align, export, thread)}"""
     out = {}
     for d in m.data:
-        img, rel = qbeil.data_image(d)
+        try:
+            img, rel = qbeil.data_image(d)
+        except qbeil.ILSyntaxError as e:
+            out[d.name] = {'bytes': b'', 'relocs': {}, 'align': d.align or 1, 'export': d.export, 'thread': d.thread, 'size': -1, 'error': str(e)}
+            continue
         out[d.name] = {'bytes': img, 'relocs': {o: (s, a) for o, (s, a, w) in rel.items()}, 'align': d.align or 1, 'export': d.export,
                        'thread': d.thread, 'size': len(img)}
     return out
@@ -148,6 +152,8 @@ def compare_symbol(name, cimgs, obj, funcs=()):
         return ['reference object has no definition of %s' % name] if c is not None else []
     if c is None:
         return ['%s is not defined in the emitted IL' % name]
+    if c.get('error'):
+        return [c['error']]
     diffs = []
     if c['size'] != r['size']:
         diffs.append('size %d, reference %d' % (c['size'], r['size']))
